@@ -360,12 +360,54 @@ func RunCase(k *fw.Case, cfg *Config) {
 	if cfg.Calls >= 4 && len(rs.Rules) >= 2 && r.Intn(3) == 0 {
 		replaceAt = cfg.Calls / 2
 	}
+	// the last selected call made on the plain engine, per method: repeated unchanged after the replacement
+	lastSel := map[string]Call{}
+	var lastSelOrder []string
+	runCall := func(i int, t *Target, c Call) {
+		lg := NewLog()
+		nh := 0
+		if cfg.Holds {
+			nh = installHolds(r, lg, rs, c, em)
+		}
+		out := t.Invoke(c, lg)
+		k.Eval(1)
+		k.Count("events", int64(len(out.Events)))
+		k.Count("holds_installed", int64(nh))
+		k.Count("holds_entered", int64(out.HoldsHit))
+		k.Count("calls_"+c.Method, 1)
+		if c.Pool {
+			k.Count("calls_via_pool", 1)
+		}
+		fs := Check(rs, c, out, false)
+		report(k, cfg, rs, c, out, fs, procs)
+		snap := make(map[string]interface{}, len(out.Result))
+		for rk, rv := range out.Result {
+			snap[rk] = rv
+		}
+		calls = append(calls, done{c, out, snap})
+		if len(out.Events) > 0 {
+			k.Distinct(c.Method, c.Pool, c.B, c.N, c.M, len(c.Names), len(c.DAG), sh, evString(out.Events))
+		}
+		if i == 0 {
+			k.Sample(map[string]interface{}{"rules": rs.Rules, "call": c, "gomaxprocs": procs, "events": evString(out.Events), "err_nil": out.Err == nil, "result_keys": resKeys(out.Result)})
+		}
+	}
 	for i := 0; i < cfg.Calls; i++ {
 		if i == replaceAt {
 			// half-way: one rule is replaced by an incremental update (new body = new id, possibly a new
 			// salience and fault status); the calls that follow must run the new version - a selection,
 			// an order or a rule body cached from the earlier calls would be stale now
 			old := rs.Rules[r.Intn(len(rs.Rules))]
+			if len(lastSelOrder) > 0 && r.Intn(4) > 0 {
+				// prefer a rule that an earlier selected call named
+				pc := lastSel[lastSelOrder[r.Intn(len(lastSelOrder))]]
+				for _, n := range pc.Names {
+					if ru := rs.ByName(n); ru != nil {
+						old = ru
+						break
+					}
+				}
+			}
 			nr := *old
 			nr.ID = old.ID + 1000
 			nr.Fail, nr.FailInReturn, nr.Custom = FailNone, false, ""
@@ -399,6 +441,12 @@ func RunCase(k *fw.Case, cfg *Config) {
 			rs.Text += "\n// replaced incrementally:\n" + txt
 			sh = shape(rs)
 			k.Count("rule_sets_with_a_mid_case_replacement", 1)
+			// the same selected calls (same method, same name list, same engine) once more: whatever the
+			// engine kept from the first time is stale now
+			for _, m := range lastSelOrder {
+				k.Count("selected_calls_repeated_after_replacement", 1)
+				runCall(-1, eng, lastSel[m])
+			}
 		}
 		method := cfg.Methods[(k.Index*cfg.Calls+i+r.Intn(2))%len(cfg.Methods)]
 		t := eng
@@ -424,33 +472,13 @@ func RunCase(k *fw.Case, cfg *Config) {
 			}
 			c.EM = em
 		}
-		lg := NewLog()
-		nh := 0
-		if cfg.Holds {
-			nh = installHolds(r, lg, rs, c, em)
+		if !c.Pool && c.IsSelected() {
+			if _, seen := lastSel[c.Method]; !seen {
+				lastSelOrder = append(lastSelOrder, c.Method)
+			}
+			lastSel[c.Method] = c
 		}
-		out := t.Invoke(c, lg)
-		k.Eval(1)
-		k.Count("events", int64(len(out.Events)))
-		k.Count("holds_installed", int64(nh))
-		k.Count("holds_entered", int64(out.HoldsHit))
-		k.Count("calls_"+c.Method, 1)
-		if c.Pool {
-			k.Count("calls_via_pool", 1)
-		}
-		fs := Check(rs, c, out, false)
-		report(k, cfg, rs, c, out, fs, procs)
-		snap := make(map[string]interface{}, len(out.Result))
-		for rk, rv := range out.Result {
-			snap[rk] = rv
-		}
-		calls = append(calls, done{c, out, snap})
-		if len(out.Events) > 0 {
-			k.Distinct(c.Method, c.Pool, c.B, c.N, c.M, len(c.Names), len(c.DAG), sh, evString(out.Events))
-		}
-		if i == 0 {
-			k.Sample(map[string]interface{}{"rules": rs.Rules, "call": c, "gomaxprocs": procs, "events": evString(out.Events), "err_nil": out.Err == nil, "result_keys": resKeys(out.Result)})
-		}
+		runCall(i, t, c)
 	}
 	// no late events: the part of each log that belongs to a returned call must not have grown
 	time.Sleep(200 * time.Microsecond)
